@@ -167,6 +167,9 @@ func runSelfTest(prop, repo, verifd string) []selfVariant {
 			os.MkdirAll(filepath.Dir(dst), 0o755)
 			data, err := os.ReadFile(src)
 			if err != nil {
+				if strings.Contains(string(b), "--- /dev/null\n+++ b/"+m[1]+"\n") {
+					continue // a file the change adds
+				}
 				ok = false
 				break
 			}
